@@ -1,4 +1,5 @@
 import SaModel.Spec.Interp
+import SaModel.Build.Builder
 import SaModel.Read.Cast
 import SaModel.Read.Label
 /-
